@@ -863,4 +863,24 @@ example :
     ∧ (⟨"100%".toList, [], []⟩ : LogRec).getMessage = some "100%".toList := by
   refine ⟨by decide +kernel, by decide +kernel, by decide +kernel, by decide +kernel, by decide +kernel, by decide +kernel⟩
 
+/-! ## the state of the process before the logger is made (seventh pass) -/
+
+/-- the level methods that turn a dictionary into JSON text, by the level name `get_logger()` registers them under -/
+def overriddenLevels : List String := ["DEBUG", "INFO", "WARNING", "ERROR"]
+
+/-- "through the logger `create_logger.get_logger()` builds": the methods `debug`, `info`, `warning`, `error` of the standard
+library exist on every `logging.Logger` and print a dictionary as `str(dict)` (no JSON, no sanitising).  `get_logger()` replaces
+each of them by `log_for_level` **on every call and under no test of what the process already holds** - the list read from
+`get_logger()` on this run (`Gen.Sanitise.levelInstalls`) has each of the four names with an empty list of enclosing tests.
+Moving the calls under `if not hasattr(logger, "audit")` (seeded C20-w9s2) makes the replacement depend on attributes another
+library may have put on `logging.Logger`, and this proof fails. -/
+theorem overrides_installed_unconditionally :
+    ∀ n ∈ overriddenLevels, (n, ([] : List String)) ∈ Gen.Sanitise.levelInstalls := by
+  decide
+
+/-- every one of the six level names is registered by `get_logger()` at all (guarded or not) -/
+theorem every_level_method_is_installed :
+    ∀ n ∈ ["DEBUG", "INFO", "WARNING", "ERROR", "AUDIT", "ALERT"], n ∈ Gen.Sanitise.levelInstalls.map Prod.fst := by
+  decide
+
 end C20
